@@ -211,3 +211,34 @@ Proof.
     destruct (verify_item_rules glob_match n Products ep ls); reflexivity.
 Qed.
 Print Assumptions tie_all_item_rules.
+
+(** * The C03 theorem carried over to the regenerated source:
+    for rule lists that parse, patterns inside the modelled glob fragment and paths inside the guards of [C03_filter],
+    `verify_item_rules` AS WRITTEN returns normally iff the documented ordered filter passes, and raises
+    RuleVerificationError iff it fails. *)
+From InToto.Proofs Require Import RulesSpec.
+
+Theorem source_item_rules_is_the_documented_filter :
+  forall name side (rules : list json) (ms : list meaning) ls item,
+    links_ok ls -> lookup name ls = Some item ->
+    Forall2 (fun j m => unpack_rule j = Ok m) rules ms ->
+    Forall (fun m => supported glob_match (pattern_of m)) ms ->
+    (forall a, In a (keys (arts side item)) -> no_bs a /\ ~ (exists x y, a = x ++ 47%N :: 47%N :: y)) ->
+    exists v, steps glob_match side item ls ms (keys (arts side item)) v /\
+      match v with
+      | Pass _ => f_verify_item_rules (VStr name) (VStr (dkind_name side)) (inj (JList rules)) (links_pv ls) = Ok VNone
+      | Fail => f_verify_item_rules (VStr name) (VStr (dkind_name side)) (inj (JList rules)) (links_pv ls) = Err ERule
+      end.
+Proof.
+  intros name side rules ms ls item Hok Hl Hparse Hsup Hq.
+  rewrite (tie_item_rules name side rules ls Hok). unfold verify_item_rules. rewrite Hl.
+  destruct (filter_spec glob_match side item ls rules ms (keys (arts side item))
+              (run_rules glob_match side item ls (keys (arts side item)) rules) Hparse Hsup) as [v [Hv Hs]].
+  - intros a Ha. split; [exact Ha | exact (Hq a Ha)].
+  - reflexivity.
+  - exists v. split; [exact Hs|].
+    destruct (run_rules glob_match side item ls (keys (arts side item)) rules) as [q|e]; cbn [res_verdict] in Hv.
+    + inversion Hv; subst. reflexivity.
+    + destruct e; try discriminate. inversion Hv; subst. reflexivity.
+Qed.
+Print Assumptions source_item_rules_is_the_documented_filter.
